@@ -82,3 +82,24 @@ def c17_single_level(v, spec):
     return (v['kind'].startswith('law-broken:') and bool(pr) and
             all('single source level, target == source' in p or
                 ('constant field became nan' in p) for p in pr))
+
+
+@pred('C12-nonstandard-calendar')
+def c12_nonstandard(v, spec):
+    # getTimes' hand-written branch for noleap/365_day/all_leap/366_day
+    # calendars (fractional-year arithmetic on a "year-like" 1970/1972)
+    # mis-decodes nearly every value: wrong day, time of day dropped,
+    # 'seconds' divided by a minutes denominator.
+    return (v['kind'] == 'wrong-instant:cf:nonstandard' and
+            spec.get('calendar') in ('noleap', '365_day', 'all_leap',
+                                     '366_day'))
+
+
+@pred('C12-date2num-hour-only-reference')
+def c12_date2num_hour_only(v, spec):
+    # date2num/time2idx hand the raw units string to netCDF4/cftime, whose
+    # parser reads the hour-only reference spellings ('YYYY-MM-DD HH',
+    # '... HH UTC', '... HHZ') as 00:00 while getTimes reads the hour:
+    # the two directions disagree by the reference hour.
+    return (v['kind'] in ('date2num-not-inverse', 'time2idx-not-identity')
+            and spec.get('form') in (2, 5, 9))
